@@ -46,6 +46,7 @@ def check_matching_taxon(ctx):
     last = fi.node.body[-1]
     rep.add('D1', fi.site(last), 'no prediction when no taxon of the lineage qualifies', isinstance(last, ast.Return) and (last.value is None or is_none(last.value)), expected='return None',
             found=u(last), stmt='no match')
+    rep.account_returns('D1', fi, rets + ([last] if isinstance(last, ast.Return) else []), 'matched taxon')
     return want
 
 
@@ -135,6 +136,8 @@ def check_classify(ctx):
     # the non-strict return happens before any strict-mode processing can alter closest_match
     between = [s for s in fn.body if st.lineno < s.lineno < rs.lineno and isinstance(s, ast.Assign) and any(u(t) == cm for t in s.targets)]
     rep.add('D3', fi.site(rs), 'closest match is not rebound before the non-strict return', not between, expected='none', found=[u(b) for b in between], stmt='closest rebinding')
+    crets = [s for s in stmts_in(fn.body) if isinstance(s, ast.Return) and (any(x in results for x in ast.walk(s)) or isinstance(s.value, ast.Name))]
+    rep.account_returns('D3', fi, crets, 'classification result')
     d = fi.param_default('strict')
     rep.add('D3', fi.site(), 'default mode is non-strict', d is not None and is_const(d, False), expected='strict=False', found=u(d), stmt='strict default')
     # attrs defaults
@@ -336,6 +339,8 @@ def check_reportable(ctx):
     at_loop = path_atoms(gm[loop])
     rep.add('D5', fi.site(loop), 'None passes through', ('isnot', 'None', tp) in at_loop, expected=f'{tp} is not None before the walk', found=sorted(at_loop), stmt='None passthrough')
     last = fi.node.body[-1]
+    none_pass = [s for s in stmts_in(fi.node.body) if isinstance(s, ast.Return) and path_atoms(gm[s]) == {('is', 'None', tp)} and is_none(s.value)]
+    rep.account_returns('D5', fi, rets + none_pass + ([last] if isinstance(last, ast.Return) else []), 'reported taxon')
     rep.add('D5', fi.site(last), 'nothing reportable in the lineage gives None', isinstance(last, ast.Return) and is_none(last.value), expected='return None', found=u(last), stmt='no reportable')
     # D6
     fg = m.func('gambit.query.get_result_item')
@@ -350,6 +355,7 @@ def check_reportable(ctx):
         crv = def_value(d) if d not in (None, PARAM, AMBIGUOUS) else None
     okc = isinstance(crv, ast.Call) and m.resolve_call(fg, crv) == f'{CL}.classify'
     rep.add('D6', fg.site(items[0]), 'the stored classifier result is the classify() outcome for this row', okc, expected='classify(db.genomes, dists, ...)', found=u(crv), stmt='classifier result')
+    rep.account_returns('D6', fg, [s for s in stmts_in(fg.node.body) if isinstance(s, ast.Return) and s.value is items[0]], 'result item')
     rt = kw.get('report_taxon')
     okr = isinstance(rt, ast.Call) and m.resolve_call(fg, rt) == 'gambit.db.models.reportable_taxon' and [u(a) for a in rt.args] == [f'{u(cr)}.predicted_taxon']
     rep.add('D6', fg.site(items[0]), 'the user-facing taxon is the reportable ancestor of the predicted taxon', okr, expected=f'reportable_taxon({u(cr)}.predicted_taxon)', found=u(rt),
